@@ -210,6 +210,15 @@ fn case(src: &mut Src, ctx: &mut Ctx) -> Result<(), Fail> {
     let irs = src.u32();
     let seed = src.u64();
     let stream_seed = src.u64();
+    // RFC 7323 2.3: a shift count above 14 is to be used as 14. One announced scale in eight is out of
+    // range (decided from bits of the payload seed so that saved tapes keep their draws).
+    let peer_ws: Option<u8> = match peer_ws {
+        Some(_) if (stream_seed >> 40) & 7 == 0 => Some([15u8, 16, 31, 255][((stream_seed >> 43) & 3) as usize]),
+        w => w,
+    };
+    if matches!(peer_ws, Some(w) if w > 14) {
+        ctx.label("peer-ws-above-14");
+    }
     let mut bed = TcpBed::new(v6, rx_cap, tx_cap, mtu, seed);
     let nagle = src.bool();
     bed.sock().set_nagle_enabled(nagle);
@@ -301,7 +310,7 @@ fn case(src: &mut Src, ctx: &mut Ctx) -> Result<(), Fail> {
         m.snd_max = 0;
         let sock_ws = sy.ws();
         if let (Some(p), Some(o)) = (peer_ws, sock_ws) {
-            m.peer_scale = p;
+            m.peer_scale = p.min(14);
             m.own_shift = o;
         }
         let mut sa = mk(Some(m.iss.wrapping_add(1)), SYN, syn_win, true);
@@ -367,7 +376,7 @@ fn case(src: &mut Src, ctx: &mut Ctx) -> Result<(), Fail> {
             m.check_emitted(s, ctx)?;
         }
         if let (Some(p), Some(o)) = (peer_ws, sa.ws()) {
-            m.peer_scale = p;
+            m.peer_scale = p.min(14);
             m.own_shift = o;
         }
         vensure!(sa.ws().is_none() || peer_ws.is_some(), "ws-offered-unasked", "SYN-ACK offers window scaling although the SYN did not");
@@ -546,7 +555,7 @@ pub fn prop() -> Prop {
         parts: vec![Part { name: "sender", case, quick: 400_000, thorough: 10_000_000 }],
         phases: vec![],
         smoltcp_panic_is_violation: true,
-        rule: "one TCP socket (tx buffer 1..=200000, MTU/Nagle/timestamps/congestion control drawn, active or passive open) whose application writes a pseudo-random stream and closes, facing a scripted peer that announces MSS {absent,0,1,47,48,100,536,1460,65535} and window scale {absent,0..14} and then sends only empty segments with drawn ACK numbers (current, old, partial, stale, far future) and windows (zero, tiny, below flight size, huge, repeated), triple duplicate ACKs and RTO-length silences; every emitted segment is decoded independently and checked against the window/MSS delivered so far, the written bytes, contiguity, FIN placement and SYN/scaled window fields; non-trivial = >= 3 data segments and at least one retransmission or change of the learned window; distinct by digest of (config, totals)",
+        rule: "one TCP socket (tx buffer 1..=200000, MTU/Nagle/timestamps/congestion control drawn, active or passive open) whose application writes a pseudo-random stream and closes, facing a scripted peer that announces MSS {absent,0,1,47,48,100,536,1460,65535} and window scale {absent,0..14, and 15/16/31/255 which count as 14} and then sends only empty segments with drawn ACK numbers (current, old, partial, stale, far future) and windows (zero, tiny, below flight size, huge, repeated), triple duplicate ACKs and RTO-length silences; every emitted segment is decoded independently and checked against the window/MSS delivered so far, the written bytes, contiguity, FIN placement and SYN/scaled window fields; non-trivial = >= 3 data segments and at least one retransmission or change of the learned window; distinct by digest of (config, totals)",
         assumptions: vec![
             "independent IPv4/IPv6/TCP codec in vkit::indep",
             "peer segments are either acceptable under both RFC 9293 and smoltcp (SND.UNA <= ACK <= SND.MAX) or unacceptable under both (below SND.UNA, or beyond everything the application wrote), so the learned window is unambiguous",
